@@ -1,7 +1,124 @@
-//! wire interfaces of the "vm" area (see docs/AGENT_GUIDE.md for the id range)
+//! wire interfaces of the "vm" area (ids 70-99)
 #![allow(unused_imports, dead_code)]
 use crate::text::*;
+use marwood::cell::Cell;
+use marwood::error::Error;
+use marwood::vm::{SystemInterface, Vm};
+use std::cell::RefCell;
+use std::rc::Rc;
 
-pub fn run(_c: &[String]) -> String {
-    "BADCASE".into()
+#[derive(Debug)]
+pub struct LogInterface {
+    pub log: Rc<RefCell<Vec<String>>>,
+}
+impl SystemInterface for LogInterface {
+    fn display(&self, cell: &Cell) {
+        self.log.borrow_mut().push(format!("D:{}", esc(&format!("{}", cell))));
+    }
+    fn write(&self, cell: &Cell) {
+        self.log.borrow_mut().push(format!("W:{}", esc(&format!("{:#}", cell))));
+    }
+    fn terminal_dimensions(&self) -> (usize, usize) {
+        (0, 0)
+    }
+    fn time_utc(&self) -> u64 {
+        0
+    }
+}
+
+pub fn new_vm() -> (Vm, Rc<RefCell<Vec<String>>>) {
+    let log = Rc::new(RefCell::new(vec![]));
+    let mut vm = Vm::new();
+    vm.set_system_interface(Box::new(LogInterface { log: log.clone() }));
+    (vm, log)
+}
+
+pub fn show_error(e: &Error) -> String {
+    // every returned error must be renderable (C06): force the Display
+    let _ = format!("{}", e);
+    match e {
+        Error::ErrorSignal(cells) => format!(
+            "ERR user {}",
+            esc(&cells.iter().map(|c| format!("{:#}", c)).collect::<Vec<_>>().join(" "))
+        ),
+        Error::ParseError(marwood::parse::Error::Incomplete)
+        | Error::ParseError(marwood::parse::Error::LexError(marwood::lex::Error::Incomplete))
+        | Error::LexError(marwood::lex::Error::Incomplete) => "ERR incomplete".into(),
+        _ => "ERR".into(),
+    }
+}
+
+/// evaluate a text datum by datum; one outcome per datum; stops at a read error
+pub fn eval_text_all(vm: &mut Vm, text: &str, out: &mut String) {
+    let mut text: &str = text;
+    loop {
+        // separate reading from evaluating so that an evaluation error does not stop the loop
+        let (cell, rest) = match marwood::parse::parse_text(text) {
+            Ok(x) => x,
+            Err(e) => {
+                out.push(' ');
+                out.push_str(&show_error(&Error::from(e)));
+                return;
+            }
+        };
+        match vm.eval(&cell) {
+            Ok(c) => {
+                out.push_str(" OK ");
+                out.push_str(&esc(&format!("{:#}", c)));
+            }
+            Err(e) => {
+                out.push(' ');
+                out.push_str(&show_error(&e));
+            }
+        }
+        match rest {
+            Some(r) => text = r,
+            None => return,
+        }
+    }
+}
+
+fn take_texts(c: &[String]) -> Option<Vec<String>> {
+    let n: usize = c.first()?.parse().ok()?;
+    let mut i = 1;
+    let mut out = vec![];
+    for _ in 0..n {
+        let len: usize = c.get(i)?.parse().ok()?;
+        i += 1;
+        if i + len > c.len() {
+            return None;
+        }
+        out.push(cps(&c[i..i + len]));
+        i += len;
+    }
+    if i != c.len() {
+        return None;
+    }
+    Some(out)
+}
+
+pub fn session(forms: &[String]) -> String {
+    let (mut vm, log) = new_vm();
+    let mut out = String::from("SESSION");
+    for f in forms {
+        out.push_str(" |");
+        eval_text_all(&mut vm, f, &mut out);
+    }
+    out.push_str(" LOG");
+    for l in log.borrow().iter() {
+        out.push(' ');
+        out.push_str(l);
+    }
+    out
+}
+
+pub fn run(c: &[String]) -> String {
+    let id: u64 = c[0].parse().unwrap_or(0);
+    match id {
+        70 | 71 => match take_texts(&c[1..]) {
+            Some(forms) => session(&forms),
+            None => "BADCASE".into(),
+        },
+        _ => "BADCASE".into(),
+    }
 }
